@@ -1,5 +1,6 @@
 (* C05 — XFLATE round trip / configuration handling. Model: XFlate/Writer.v
    over the external compressor [deflate]; XFlate/Reader.v. *)
+From V Require Import Flate.Spec XFlate.Refine XFlate.RefineCheck XFlate.RoundTripStmt XFlate.RoundTripAll.
 From V Require Import Base.Prelude Meta.Model XFlate.Index XFlate.Writer XFlate.Reader XFlate.Thms XFlate.Witness.
 
 (* invalid configurations are refused at construction *)
@@ -26,3 +27,33 @@ Theorem xr_reads_back_witness :
   end.
 Proof. exact w_stream_reads_back. Qed.
 Print Assumptions xr_reads_back_witness.
+
+(* THE PROPERTY, for every history. For every compressor that satisfies contract K1 (what
+   compress/flate has emitted after a Flush is a sequence of complete non-final DEFLATE blocks
+   for exactly the data written, ending in the sync marker - evaluated by the extracted model
+   on every chunk of every run), every accepted configuration (level, chunk size, index size)
+   and EVERY sequence of Write / Flush(sync, full, index; invalid modes refused without effect)
+   calls ending in Close in which every call reports success: the bytes handed to the
+   destination are opened by the Reader, and its record table is HONEST for the concatenation
+   of the data written ([honest_stream], the hypothesis of the C07 theorem). Sizes: sink below
+   2^40 bytes (the meta decoder MODEL's loop budget), data below 2^62 (int64 offsets). *)
+Theorem xflate_roundtrip_for_every_configuration_and_schedule : xflate_roundtrip_stmt.
+Proof. exact xflate_roundtrip. Qed.
+Print Assumptions xflate_roundtrip_for_every_configuration_and_schedule.
+
+(* ... hence, with the C07 refinement theorem, EVERY Seek / Read / Close history on a stream the
+   Writer produced behaves exactly as a ReadSeeker over the data written: sequential reading
+   returns the input, Seek(0, End) returns its length *)
+Theorem xflate_written_streams_read_back : forall deflate, K1 deflate ->
+  forall lvl chunk idx s0 ops obs s,
+    new_writer lvl chunk idx = inr s0 ->
+    wrun deflate s0 (ops ++ [WClose]) = (obs, s) ->
+    Forall (fun ob => snd ob = None \/ snd ob = Some EInvalid) obs ->
+    snd (last obs (0, None)) = None ->
+    (forall b, In b (wops_data ops) -> b < 256) ->
+    (Z.of_nat (length (w_sink s)) < 2 ^ 40)%Z ->
+    (Z.of_nat (length (wops_data ops)) < 2 ^ 62)%Z ->
+    exists s1, open_reader (w_sink s) = inr s1 /\
+      forall rops, fst (rrun s1 rops) = fst (sp_run (wops_data ops) (mkSp 0 None) rops).
+Proof. exact xflate_written_stream_is_a_readseeker. Qed.
+Print Assumptions xflate_written_streams_read_back.
